@@ -1,0 +1,56 @@
+//go:build verif
+
+package queue
+
+import (
+	"time"
+
+	"github.com/emersion/go-smtp"
+	"github.com/foxcpp/maddy/framework/log"
+	"github.com/foxcpp/maddy/framework/module"
+)
+
+// VerifConfig carries the knobs a verification harness needs to construct
+// a Queue without going through the configuration parser.
+type VerifConfig struct {
+	Location         string
+	Target           module.DeliveryTarget
+	Bounce           module.DeliveryTarget // nil: no bounce pipeline
+	MaxTries         int
+	MaxParallelism   int
+	InitialRetryTime time.Duration
+	RetryTimeScale   float64
+	PostInitDelay    time.Duration
+	Hostname         string
+	AutogenMsgDomain string
+	Log              log.Logger
+}
+
+// VerifNewQueue constructs and starts a Queue exactly the way Init does after
+// configuration parsing (start → readDiskQueue).
+func VerifNewQueue(c VerifConfig) (*Queue, error) {
+	mod, err := NewQueue("", "queue", nil, nil)
+	if err != nil {
+		return nil, err
+	}
+	q := mod.(*Queue)
+	q.initialRetryTime = c.InitialRetryTime
+	q.retryTimeScale = c.RetryTimeScale
+	q.postInitDelay = c.PostInitDelay
+	q.maxTries = c.MaxTries
+	q.location = c.Location
+	q.Target = c.Target
+	q.hostname = c.Hostname
+	q.autogenMsgDomain = c.AutogenMsgDomain
+	q.Log = c.Log
+	if c.Bounce != nil {
+		q.dsnPipeline = c.Bounce
+	}
+	if err := q.start(c.MaxParallelism); err != nil {
+		return nil, err
+	}
+	return q, nil
+}
+
+// VerifToSMTPErr exposes the conversion used for persisted per-recipient errors.
+func VerifToSMTPErr(err error) *smtp.SMTPError { return toSMTPErr(err) }
